@@ -400,6 +400,8 @@ def run(tier, seed):
            "rule": "R: every behaviour of Checks.tla with %d events (72 events: 10 assignment values, 3 second-instance assignments, 59 guarded calls x input "
                    "classes) + simulated behaviours of 14 events; T: hypothesis histories of <= 30 events recorded from the real "
                    "package and validated by TLC against Trace_Checks.tla" % (2 if tier == "quick" else 3)}
+    if tier == "thorough":
+        common.apalache_inductive(wd, "apalache/ChecksInd", "Inv", "IndInit", cov)
     return v.finish("model_checking", cov, ASSUME)
 
 
